@@ -784,16 +784,29 @@ impl TypeInfo {
             ));
         }
         let ftype = self.function_to_functype(fdecl)?;
-        if self
-            .func_types
-            .insert(fdecl.name.clone(), Arc::new(ftype))
-            .is_some()
-        {
+        // Reject a duplicate before touching the table: inserting first would
+        // replace the existing signature with the rejected one.
+        if self.func_types.contains_key(&fdecl.name) {
             return Err(TypeError::FunctionAlreadyBound(
                 fdecl.name.clone(),
                 fdecl.span.clone(),
             ));
         }
+        self.func_types.insert(fdecl.name.clone(), Arc::new(ftype));
+        // The signature is visible while the merge expression is checked; a
+        // declaration that is rejected below must not leave it behind.
+        let resolved = self.typecheck_function_body(symbol_gen, fdecl);
+        if resolved.is_err() {
+            self.func_types.remove(&fdecl.name);
+        }
+        resolved
+    }
+
+    fn typecheck_function_body(
+        &mut self,
+        symbol_gen: &mut SymbolGen,
+        fdecl: &FunctionDecl,
+    ) -> Result<ResolvedFunctionDecl, TypeError> {
         let mut bound_vars = IndexMap::default();
         let output_type = self.sorts.get(&fdecl.schema.output).unwrap();
         if fdecl.subtype == FunctionSubtype::Constructor && !output_type.is_eq_sort() {
